@@ -4,6 +4,7 @@ MODULES = {
     # name -> where the package under test lives in /repo and which harness directory is overlaid into it
     "rueidis": {"dir": ".", "harness": "rueidis"},
     "rueidiscompat": {"dir": "rueidiscompat", "harness": "rueidiscompat", "package": "rueidiscompat"},
+    "rueidisaside": {"dir": "rueidisaside", "harness": "rueidisaside", "package": "rueidisaside"},
 }
 
 REAL = ("all of package github.com/redis/rueidis built from /repo's working tree with -tags verif "
@@ -574,5 +575,58 @@ CHECKS = {
         "components": {"real": "packages github.com/redis/rueidis/rueidiscompat and github.com/redis/rueidis built from /repo's working tree with -tags verif", "stubs": STUBS},
         "assumptions": ["arguments a go-redis program could not pass (odd key/value lists, wrongly typed variadics) may make the adapter panic while queuing; that is not judged",
                         "when Exec itself reports a transport or context error the individual results are not judged"],
+    },
+    "C39": {
+        "level": "exploration",
+        "rule": ("plans: 2-3 real CacheAsideClients (each with its own rueidis client on one pipelined connection; lock variant per client: plain SET NX GET PX or the "
+                 "UseLuaLock script, mixed within a run; ClientTTL 1/2/4 s) share one simulated Redis; 2-8 tasks issue 1-4 calls each: Get (plain or through "
+                 "TypedCacheAsideClient) on 1-3 shared keys with TTLs of 2-8 s of fake time and a loader that returns a value unique to the invocation (instantly, or after "
+                 "50 ms..2.5 s of fake time, optionally with OverrideCacheTTL) or fails with a unique error, and Del; the environment: ghost SET / DEL of the data keys, "
+                 "a placeholder left by a process that never existed, SCRIPT FLUSH, reply cuts at any byte, connection faults (reset, EOF, reset after the server executed, "
+                 "EOF mid-reply), and the silent death of one client (nothing moves on its connections any more in either direction and nobody is told, its dials are "
+                 "refused, its tasks are abandoned, no Close) - in 70% of those plans at a moment when its placeholder is stored under a data key; in half of the runs fake "
+                 "time only advances when nothing else can happen (tight clock). The package's three Lua scripts execute in fakeredis + lualite. After the workload every "
+                 "fault is healed, max(ClientTTL) of fake time passes, and every live client issues one fresh Get per key (probe). "
+                 "Oracle, from the results of all Gets, the record of all loader invocations and the model's history of every key (value after each modification, writer, "
+                 "step, fake time): (1) no Get returns, with a nil error, a value carrying PlaceholderPrefix; (2) every value returned with a nil error was produced by a "
+                 "loader invocation for that key, or stored under that key by the ghost writer, before the Get returned; (3) load once: every loader invocation is covered by "
+                 "a lock acquisition of its own client on that key made during its Get and not needed by another invocation - one that is not, and runs while another "
+                 "holder's placeholder is in place, that holder alive (liveness key present, client not killed) and loading itself, is a violation; and (tight clock only) two "
+                 "loaders for one key never run at the same time because a client removed the placeholder of a holder that never lost a connection and was not killed; "
+                 "(4) a Get does not give up with its context error, without having run its loader, on a healthy client, when for the last 3 s of fake time before that the "
+                 "key was not locked by a live holder (it held a value, nothing, or a placeholder whose liveness key did not exist): waiters get the loaded result, and a dead "
+                 "client's lock (liveness key lapsed by ClientTTL in the model) is taken over; every probe Get succeeds; (5) a Get that returns its loader's error on a healthy "
+                 "client has removed its placeholder by the time it returns; (6) every Get of a client that was not killed returns. "
+                 "non-trivial = two Gets of different clients on one key overlapped in time and a loader ran, or a waiter returned another call's loaded value; "
+                 "distinct = distinct SHA-256 of the event log"),
+        "parts": [
+            {"module": "rueidisaside", "scenario": "aside", "quick": 4000, "thorough": 240000},
+            {"module": "rueidisaside", "scenario": "aside", "variant": "calm", "quick": 1500, "thorough": 80000},
+        ],
+        "expected_probes": ["gets-of-two-clients-overlapped", "waiter-on-another-client-got-the-result", "waiter-on-same-client-got-the-result",
+                            "client-died-holding-a-lock", "dead-clients-lock-released-by-another-client", "foreign-placeholder-removed", "loader-failed",
+                            "lua-lock-client", "setnx-lock-client", "two-loaders-ran-concurrently-for-one-key", "get-gave-up-waiting", "script-flush-planned"],
+        "components": {"real": "packages github.com/redis/rueidis/rueidisaside (aside.go, typed_aside.go, its Lua scripts) and github.com/redis/rueidis built from /repo's working tree with -tags verif",
+                       "stubs": dict(STUBS, **{"Lua interpreter": "verifsim/lualite inside fakeredis (EVAL / EVALSHA / SCRIPT FLUSH)",
+                                               "math/rand (client ids)": "global source seeded per run by the driver; draws serialised by the scheduler (see assumptions)"})},
+        "assumptions": [
+            "client ids come from the global math/rand source (aside.go randStr), not from the seeded util seam: the driver seeds it per run, and the scenario gives every client a "
+            "rueidis.Client wrapper (public ClientBuilder option) that parks the caller after a DoCache miss on a data key and after the reply to a SET of a liveness key, so that "
+            "concurrent draws and the choice of the winning id are scheduler decisions; the wrapper also names the calling task on the context.Background() calls the package "
+            "makes (lock release), a value-only context with a nil Done channel",
+            "one pipelined connection per client (PipelineMultiplex -1) and a jitter-free RetryDelay: with several wires rueidis picks the wire through util.FastRand, whose seeded seam "
+            "hands out values by a global counter, and the liveness refreshes of several clients fire in the same fake instant",
+            "'alive' in rule 3 means: the client was not killed and, for the first half, its liveness key exists in the model; the second half (a live holder is never taken for dead) is "
+            "judged only in tight-clock runs and only for holders that never lost a connection, because otherwise a refresh delayed by the scheduler by ClientTTL/2 is a legitimate lapse",
+            "the 3 s in rule 4 is a scheduling allowance of this harness (a handful of round trips, each delayable by a few ticks of at most 300 ms), not a constant of the implementation; "
+            "Gets with a TTL below 3 s are therefore never judged by rule 4",
+            "external removal of a lock (ghost DEL / SET, Del by a caller, the placeholder's own TTL running out under a slow loader) legitimately lets a second loader run: such "
+            "pairs are counted as not judged",
+            "a Get whose context ends between the server executing its lock acquisition and the reply leaves a placeholder of a live holder until its TTL; the property does not "
+            "speak about it: probes that meet a live holder's placeholder are not judged",
+            "freshness of returned values (client-side caching may serve a value until its invalidation arrives) and the setkey ownership check (a late loader must not overwrite a "
+            "newer lock) are outside the property as stated: a setkey without the comparison is not detected",
+            "loaders ignore their context (a select between a timer and ctx.Done() that become ready in the same fake instant would be resolved by the Go runtime)",
+        ],
     },
 }
